@@ -129,7 +129,7 @@ type treeCfg struct {
 	codec     int // 0 zeroes, 1 zlib, 2 long zeroes, 3 long other
 	maxDepth  int
 	maxArity  int
-	emptyProb int // percent
+	emptyProb int  // percent
 	budget    *int // remaining branch nodes
 }
 
